@@ -16,7 +16,7 @@ from vlib import common, realrun, workload
 LEVEL = 'fault_enumeration'
 
 FAULTS = ['sleep', 'spin1', 'spin4', 'alloc', 'abort', 'segv', 'kill',
-          'forksleep']
+          'forksleep', 'burn4']
 GRACE = 10.0
 
 
@@ -51,17 +51,26 @@ def make_case(r):
     # faulty candidates: a token present, another absent (so that the fault
     # only shows on some reductions: first / middle / last in the order)
     used = []
+    keep = r.randrange(n)
     for _ in range(nf):
         a, b = r.sample(range(n), 2)
         used.append((a, b))
-        rules.append(realrun.rule(f'has:m{a} count:m{b}>=2 ! &', 0, '', '',
-                                  fault=fault))
-    keep = r.randrange(n)
+        if fault == 'burn4':
+            # uses twice the CPU limit (limit = ceil(1.0 s)) on 4 threads and
+            # then answers exactly like the golden run
+            a = keep
+            rules.append(realrun.rule(f'count:m{a}>=2 count:m{b}>=2 ! &', 1,
+                                      'bug\n', 'err\n', fault='burn4:2000'))
+        else:
+            rules.append(realrun.rule(f'has:m{a} count:m{b}>=2 ! &', 0, '',
+                                      '', fault=fault))
     rules.append(realrun.rule(f'count:m{keep}>=2', 1, 'bug\n', 'err\n'))
     rules.append(realrun.rule('all', 0, 'ok\n', ''))
     strat = r.choice(workload.STRATEGIES)
     j = r.choice([1, 1, 4])
     tmo = r.choice([None, 0.2, 0.3, 0.3, 0.5, 0.5])
+    if fault == 'burn4':
+        tmo = 1.0
     if tmo is None and (fault == 'alloc' or nf > 1):
         # the automatic limit is about 1.5 s per faulty test
         tmo = 0.3
@@ -73,6 +82,11 @@ def make_case(r):
     if fault == 'alloc' and r.random() < 0.7:
         memout = r.choice([64, 128])
         opts += ['--memout', str(memout)]
+    if memout is None and r.random() < 0.5:
+        # a generous memory limit that never triggers (the limits are set
+        # independently of each other)
+        memout = 4096
+        opts += ['--memout', '4096']
     if r.random() < 0.3:
         # exit code only: a timed-out run has no exit code at all
         opts += ['--ignore-output']
@@ -263,8 +277,7 @@ def run(ctx):
     ]
     if ctx.counters.get('faulty_tests', 0) == 0:
         ctx.inconclusive_because('no faulty test was executed')
-    if ctx.counters.get('runs_watchdog', 0):
-        ctx.inconclusive_because('a run hit the watchdog without evidence')
+    ctx.judge_watchdog('runs')
 
 
 def replay(data):
